@@ -1196,6 +1196,8 @@ class Interp:
                 r = a in b.s
             elif isinstance(b, (tuple, list, set, frozenset, dict, str)) and not isinstance(a, (Sym, ALine)):
                 r = a in b
+            elif a in ('\n', '\r', '\r\n') and isinstance(b, (ALine, APart)):
+                r = False       # an abstract line / part stands for the text of one line: no line end inside
             elif a == '\\' and isinstance(b, (ALine, APart)):
                 # the abstract lines of the scenarios stand for text whose only backslash is the continuation mark (backslashes inside literals are the concrete engines' business)
                 r = isinstance(b, ALine) and b.cont is not None
